@@ -1,7 +1,13 @@
-(* Model of epydemic/bbt.py (TreeNode add/discard/_rotate with stored height and sizes). Executable definitions only. *)
-From Coq Require Import ZArith List Bool Arith Lia.
+(* Model of epydemic/bbt.py (TreeNode) and epydemic/drawset.py (DrawSet), with the STORED height and
+   sub-tree sizes as fields.  Executable definitions only, no proofs.
+
+   Elements are [Z].  Int pairs (edges; Python tuples compare lexicographically) are handled by the
+   order isomorphism (a, b) |-> a * K + b with 0 <= b < K (harness/c09.py encodes, Proofs/BbtSet.v
+   [pair_code_lt] proves that the encoding preserves and reflects the order); the code only ever
+   applies [==] and [<] to elements. *)
+From Coq Require Import ZArith QArith List Bool Arith.
 Import ListNotations.
-Open Scope Z_scope.
+Local Open Scope Z_scope.
 
 Inductive tree := Leaf | Node (l : tree) (d : Z) (h ls rs : nat) (r : tree).
 
@@ -117,11 +123,119 @@ Fixpoint discard (e : Z) (t : tree) : tree * bool :=
       let '(r', p) := discard e r in if p then (rebal (mk l d r'), true) else (t, false)
   end.
 
-Inductive op := A (e : Z) | D (e : Z).
-Definition apply (t : tree) (o : op) : tree :=
-  match o with A e => fst (add e t) | D e => fst (discard e t) end.
+(* ---- read-only operations ---------------------------------------------------------- *)
+
+(* TreeNode.find(e) is not None  (bbt.py:267-283) *)
+Fixpoint find (e : Z) (t : tree) : bool :=
+  match t with
+  | Leaf => false
+  | Node l d _ _ _ r => if e =? d then true else if e <? d then find e l else find e r
+  end.
+(* number of tree nodes whose data [find] compares with [e] *)
+Fixpoint find_visits (e : Z) (t : tree) : nat :=
+  match t with
+  | Leaf => 0%nat
+  | Node l d _ _ _ r => S (if e =? d then 0%nat else if e <? d then find_visits e l else find_visits e r)
+  end.
+
+(* TreeNode._inOrder (bbt.py:291-300) *)
+Fixpoint inorder (t : tree) : list Z :=
+  match t with Leaf => [] | Node l d _ _ _ r => inorder l ++ d :: inorder r end.
+
+(* TreeNode.__len__ reads the STORED sizes (bbt.py:44-49) *)
+Definition len (t : tree) : nat := slen t.
+
+(* ---- draw (bbt.py:412-436) ----------------------------------------------------------
+   [draw] is written once, as the tree of requests it makes to rng.integers; the oracle
+   interpreter [run_ct] (co-execution) and the exact law [prob_ct] (theorems) both read this tree. *)
+Inductive ctree :=
+| CRet (e : Z)                              (* return self._data *)
+| CRaise                                    (* method call on None: only reachable with a stale size *)
+| CInt (n : nat) (k : nat -> ctree).        (* i = rng.integers(n); continue with k i *)
+
+Fixpoint draw_ct (t : tree) : ctree :=
+  match t with
+  | Leaf => CRaise
+  | Node l d _ ls rs r =>
+    if (ls + 1 + rs =? 1)%nat then CRet d
+    else CInt (ls + 1 + rs)
+              (fun i => if (i <? ls)%nat then draw_ct l else if (i =? ls)%nat then CRet d else draw_ct r)
+  end.
+
+Inductive dres := Drew (e : Z) | Stuck | BadScript.
+
+(* serve the scripted integers; also return the arguments of the rng.integers calls, in order.
+   numpy's integers(n) returns a value in [0, n): anything else is a bad script, not a behaviour *)
+Fixpoint run_ct (c : ctree) (ints : list nat) : dres * list nat :=
+  match c with
+  | CRet e => (Drew e, [])
+  | CRaise => (Stuck, [])
+  | CInt n k =>
+    match ints with
+    | [] => (BadScript, [n])
+    | i :: ints' => if (i <? n)%nat then let '(r, q) := run_ct (k i) ints' in (r, n :: q) else (BadScript, [n])
+    end
+  end.
+
+Fixpoint sumQ (l : list Q) : Q := match l with [] => 0%Q | x :: l' => (x + sumQ l')%Q end.
+
+(* probability that the request tree returns [e] when every integers(n) is uniform on [0, n) and
+   the calls are independent (the contract of numpy's generator) *)
+Fixpoint prob_ct (c : ctree) (e : Z) : Q :=
+  match c with
+  | CRet x => if x =? e then 1%Q else 0%Q
+  | CRaise => 0%Q
+  | CInt n k => ((1 # Pos.of_nat n) * sumQ (map (fun i => prob_ct (k i) e) (seq 0 n)))%Q
+  end.
+
+(* ---- DrawSet (drawset.py): _root is None <-> Leaf ------------------------------------- *)
+Inductive op :=
+| A (e : Z)                 (* add *)
+| D (e : Z)                 (* discard *)
+| R (e : Z)                 (* remove: KeyError when absent *)
+| Dr (ints : list nat)      (* draw, with the values rng.integers will return *)
+| Mem (e : Z)               (* e in s *)
+| Iter.                     (* list(iter(s)) *)
+
+Inductive res :=
+| RUnit | RKeyError | RValueError | RDrew (e : Z) | RStuck | RBadScript | RBool (b : bool) | RList (l : list Z).
+
+Definition is_empty (t : tree) : bool := match t with Leaf => true | _ => false end.
+
+(* new state, result, arguments of the rng.integers calls made *)
+Definition step (t : tree) (o : op) : tree * res * list nat :=
+  match o with
+  | A e => (fst (add e t), RUnit, [])
+  | D e => (fst (discard e t), RUnit, [])
+  | R e => let '(t', present) := discard e t in if present then (t', RUnit, []) else (t, RKeyError, [])
+  | Dr ints =>
+    match t with
+    | Leaf => (t, RValueError, [])
+    | _ => let '(r, q) := run_ct (draw_ct t) ints in
+           (t, match r with Drew e => RDrew e | Stuck => RStuck | BadScript => RBadScript end, q)
+    end
+  | Mem e => (t, RBool (find e t), [])
+  | Iter => (t, RList (inorder t), [])
+  end.
+Definition apply (t : tree) (o : op) : tree := fst (fst (step t o)).
+Definition run (ops : list op) : tree := fold_left apply ops Leaf.
 
 (* preorder dump: (data, h, ls, rs) with a marker for leaves *)
-Fixpoint dump (t : tree) : list (option (Z * nat * nat * nat)) :=
+Definition entry := option (Z * nat * nat * nat).
+Fixpoint dump (t : tree) : list entry :=
   match t with Leaf => [None] | Node l d h ls rs r => Some (d, h, ls, rs) :: dump l ++ dump r end.
-Definition run (ops : list op) : list (option (Z * nat * nat * nat)) := dump (fold_left apply ops Leaf).
+
+(* ---- the abstract set: a strictly ascending list ------------------------------------- *)
+Fixpoint ins (e : Z) (l : list Z) : list Z :=
+  match l with
+  | [] => [e]
+  | x :: l' => if e =? x then l else if e <? x then e :: l else x :: ins e l'
+  end.
+Fixpoint del (e : Z) (l : list Z) : list Z :=
+  match l with
+  | [] => []
+  | x :: l' => if e =? x then l' else if e <? x then l else x :: del e l'
+  end.
+Definition aapply (s : list Z) (o : op) : list Z :=
+  match o with A e => ins e s | D e => del e s | R e => del e s | _ => s end.
+Definition aset (ops : list op) : list Z := fold_left aapply ops [].
